@@ -292,9 +292,75 @@ func c18EnumRedefined(c *Ctx, r *Rng) {
 	}
 }
 
+// raw (non-inferable) enum targets ColEnum8 / ColEnum16, bare and wrapped, against enum and integer blocks of either width:
+// the model of the compatibility relation says which pairs must be refused; an accepted pair of different widths reads half or
+// double the bytes
+func c18RawEnumTargets(c *Ctx, r *Rng) {
+	R := c.R
+	type tgt struct {
+		name string
+		mk   func() proto.Column
+	}
+	targets := []tgt{
+		{"ColEnum8", func() proto.Column { return new(proto.ColEnum8) }},
+		{"ColEnum16", func() proto.Column { return new(proto.ColEnum16) }},
+		{"ColEnum8.Array()", func() proto.Column { return new(proto.ColEnum8).Array() }},
+		{"ColEnum16.Array()", func() proto.Column { return new(proto.ColEnum16).Array() }},
+		{"ColEnum8.Nullable()", func() proto.Column { return new(proto.ColEnum8).Nullable() }},
+		{"ColEnum16.Nullable()", func() proto.Column { return new(proto.ColEnum16).Nullable() }},
+	}
+	blocks := []string{"Enum8('a' = 1, 'b' = 2)", "Enum16('a' = 1, 'b' = 2)", "Int8", "Int16", "UInt8",
+		"Array(Enum8('a' = 1, 'b' = 2))", "Array(Enum16('a' = 1, 'b' = 2))", "Nullable(Enum8('a' = 1, 'b' = 2))", "Nullable(Enum16('a' = 1, 'b' = 2))"}
+	for _, bt := range blocks {
+		t, err := parseCH(bt)
+		if err != nil {
+			continue
+		}
+		for _, tg := range targets {
+			for _, second := range []bool{false, true} {
+				k := 0
+				types := []*TNode{t}
+				if second {
+					ts, _ := parseCH("String")
+					types = append(types, ts)
+				}
+				cols, err := buildCols(r, len(types), 2, genOpts{}, func() *TNode { k++; return types[k-1] })
+				if err != nil {
+					continue
+				}
+				var buf proto.Buffer
+				blk := proto.Block{Columns: len(cols), Rows: 2}
+				if blk.EncodeRawBlock(&buf, 54460, inputOf(cols)) != nil {
+					continue
+				}
+				target := tg.mk()
+				res := proto.Results{{Name: cols[0].name, Data: target}}
+				if second {
+					res = append(res, proto.ResultColumn{Name: cols[1].name, Data: new(proto.ColStr)})
+				}
+				cs := map[string]any{"block": bt, "target": tg.name, "target_type": string(target.Type()), "second_column": second}
+				R.Case(fmt.Sprintf("raw-enum|%s|%s|%v", bt, tg.name, second), true)
+				R.Count("shape:raw-enum-target")
+				var got proto.Block
+				var derr error
+				if p, msg := safely(func() { derr = got.DecodeRawBlock(proto.NewReader(bytes.NewReader(buf.Buf)), 54460, res) }); p {
+					R.Violate(Violation{Kind: "oracle", Key: "bind-panic", What: "DecodeRawBlock panicked: " + msg, Case: cs})
+					continue
+				}
+				conf, ok := modelConflicts(c, string(cols[0].col.Type()), string(target.Type()))
+				R.Compared()
+				if ok && conf && derr == nil {
+					R.Violate(Violation{Kind: "oracle", Key: "bind-mismatch-accepted", What: fmt.Sprintf("a %s block was bound to a %s target (%s) without error", bt, tg.name, target.Type()), Case: cs})
+				}
+			}
+		}
+	}
+}
+
 func runC18(c *Ctx) {
 	R := c.R
 	defer c18EnumRedefined(c, c.Rng.Fork())
+	defer c18RawEnumTargets(c, c.Rng.Fork())
 	R.Rule = "pairs (block schema, target list): equal, permuted, renamed, extra / missing columns, a type swapped for a look-alike (same wire width, parameter-only differences, decimal aliases around the precision bands, enum tables), blank target names, explicit ColAuto targets, zero-row header blocks with and without targets, and two-block sequences with a changed schema against the same targets. The expected verdict comes from the Lean model of the compatibility relation. non-trivial = not the identical schema; distinct by (shape, schema, targets)."
 	r := c.Rng
 	n := 150
